@@ -62,3 +62,9 @@ U("c09_epub_static_members", ["C09"], "h_epub_static", ["C09/epub_static.c"], ["
   functions=["epub_mimetype", "epub_container_xml", "my_strdup (epub.c)"],
   callees={"d_string_new/d_string_append/d_string_free": "recording stubs (appends concatenated; DString itself: C19)", "strlen/strcpy/malloc": "CBMC built-in"},
   min_obligations=10, timeout=300, cost=10, native=None, assumptions=[NOFAIL, "the functions take no input: the single concrete run is exhaustive (loops unwound to their concrete length, unwinding assertions on)"])
+
+U("c09_textbundle_info_json", ["C09"], "h_textbundle_info", ["C09/epub_static.c"], ["textbundle.c"], plain=True, lib=(), kind="proof",
+  defines=["-DI18N_DISABLED=1", "-DUNIT_TB"], cbmc_flags=["--unwind", "402", "--unwinding-assertions", "--object-bits", "10"],
+  functions=["textbundle_info_json"],
+  callees={"d_string_new/d_string_append/d_string_free": "recording stubs (appends concatenated; DString itself: C19)", "malloc": "CBMC built-in"},
+  min_obligations=10, timeout=300, cost=10, native=None, assumptions=[NOFAIL, "the function takes no input: the single concrete run is exhaustive (loops unwound to their concrete length, unwinding assertions on)"])
